@@ -60,7 +60,8 @@ P("C22",
              "and page policy: the issued stream (derived from the existing command-issue milestones + the component State) replayed through the model must reproduce "
              "every issue decision and the sampled/final bank-level State exactly, and the stream itself (engine cycles) must satisfy the automaton, every pairwise "
              "separation of the table the real builder generated, tFAW, and the Spec-vs-table facts; (3) the tables of every preset in presets.go are regenerated and "
-             "checked in Coq on every run (translate step). 'Every request completes and reads return the last written data' is checked per run by the harness.",
+             "checked in Coq on every run (translate step). 'Every request completes and reads return the last written data' is checked per run by the harness, "
+             "also for requesters that do not wait between accesses to the same bytes (program order); known finding F-C22-1: the scheduler keeps no same-address order (a younger read/write can overtake an older write/read to the same bytes).",
   level_note="Not modelled: the FR-FCFS scheduler and queues (an arbitrary oracle in the theorems; its real choices are replayed in the tie), refresh (a global stall: "
              "ticks without issue), address decoding, the completion timeline. Found while building the generator, outside the quantifier: with tRAS < tRCD (no real "
              "device) FR-FCFS precharges a freshly activated row before its access can issue, for ever (livelock); the generator keeps tRAS >= tRCD + 8.",
